@@ -22,8 +22,13 @@ import (
 // a "$value" leaf of kind "rawvalue" is copied into "Value" verbatim (text that is not JSON, or JSON of the
 // wrong kind), and the pseudo alternative name carries through untouched (unknown Type).
 func UnionJSON(alt string, uv any) any {
-	if vtree.Kind(uv) == "rawvalue" {
+	switch vtree.Kind(uv) {
+	case "rawvalue":
 		return map[string]any{"Type": alt, "Value": vtree.Text(uv)}
+	case "novalue":
+		return map[string]any{"Type": alt} // the member Value left out
+	case "notype":
+		return map[string]any{"Value": vtree.Text(uv)} // the member Type left out
 	}
 	b, err := json.Marshal(ToJSON(uv))
 	if err != nil {
@@ -115,13 +120,14 @@ func unionNodes(sp *spec.Spec, t *spec.Type, v any, out *[]unionNode, depth int)
 
 // unionMalformed builds hand-encoded requests whose union representation is broken while everything else
 // satisfies the design: "Value" holds text that is not JSON, JSON of another kind than the selected
-// alternative's, or JSON null. None of them denotes a value of the alternative, so none may reach user code.
+// alternative's, or JSON null; the member Value or the member Type is left out. None of them denotes a value of
+// an alternative, so none may reach user code.
 func unionMalformed(sp *spec.Spec, sv *spec.Service, m *spec.Method, r *vc.Rand, mk func(string) *rt.Case, validResult func(*vc.Rand) *rt.Outcome) []*rt.Case {
 	if m.HTTP == nil || m.Payload == nil {
 		return nil
 	}
 	var out []*rt.Case
-	for i, class := range []string{"union-value-not-json", "union-value-wrong-json-kind", "union-value-null"} {
+	for i, class := range []string{"union-value-not-json", "union-value-wrong-json-kind", "union-value-null", "union-no-value", "union-no-type"} {
 		tree, none := PayloadAlt(sp, m, r.Fork(uint64(i)), 1, i+1)
 		if none || tree == nil {
 			return out
@@ -153,6 +159,15 @@ func unionMalformed(sp *spec.Spec, sv *spec.Service, m *spec.Method, r *vc.Rand,
 			bad = "null"
 		}
 		node["$value"] = "rawvalue:" + bad
+		names := []string{"decode_payload", "invalid_field_type", "missing_field"}
+		switch class {
+		case "union-no-value":
+			node["$value"] = "novalue:"
+			names = []string{"missing_field"}
+		case "union-no-type":
+			node["$value"] = "notype:1"
+			names = []string{"missing_field"}
+		}
 		rq, err := Raw(sp, sv, m, tree, 0)
 		if err != nil {
 			continue
@@ -162,7 +177,7 @@ func unionMalformed(sp *spec.Spec, sv *spec.Service, m *spec.Method, r *vc.Rand,
 		c.Raw = rq
 		c.Note["mode"] = "raw"
 		c.Note["alt_kind"] = kind
-		c.Note["expect_names"] = []string{"decode_payload", "invalid_field_type", "missing_field"}
+		c.Note["expect_names"] = names
 		c.Outcome = validResult(r.Fork(uint64(200 + i)))
 		out = append(out, c)
 	}
